@@ -101,14 +101,19 @@ class Spec(object):
             clean = []
             for c in calls:
                 if c[0] == 'P':
-                    t = c[1].replace('#', '~')
+                    # benign = no "#." sequence; a '#' elsewhere (also at the start of a line) is fine
+                    t = c[1].replace('#.', '#~')
+                    if rng.random() < 0.4:
+                        t = rng.choice(['# Heading\n', '#', 'a\n#include <x>\n', '## sub\n\n']) + t
                     if not t.strip('\r\n'):
                         t = 'x' + t
                     clean.append(('P', t, None) + c[3:])
                 elif c[0] == 'M':
                     clean.append(('M', {'key': 'value', 'n': [1, 2]}, None, c[3]))
                 elif c[0] == 'D':
-                    d = c[1].replace(b'#', b'~').replace(b'\xff', b'y').replace(b'\xfe', b'z')
+                    d = c[1].replace(b'#.', b'#~').replace(b'\xff', b'y').replace(b'\xfe', b'z')
+                    if rng.random() < 0.3:
+                        d = b'# HG changeset patch\n# User x\n' + d
                     try:
                         d.decode('utf-8')
                     except UnicodeDecodeError:
@@ -150,16 +155,15 @@ class Spec(object):
             from pygments.token import Error, Name
             if any(tt is Error for _, tt, _ in toks):
                 bad.append('Error token in a writer-produced file with benign content')
-            # header tokens: Name.Tag tokens that start a line with '#'
-            want = []
-            off = 0
-            for line in text.split('\n'):
-                if line.startswith('#'):
-                    want.append((off, line.split(':', 1)[0] + ':'))
-                off += len(line) + 1
-            got = [(p, v) for p, tt, v in toks if tt is Name.Tag and v.startswith('#')]
-            if got != want:
-                bad.append('header tokens %r differ from the section headers %r' % (got[:6], want[:6]))
+            # header tokens: Name.Tag tokens with a '#' value; the file's section headers are
+            # taken from the streaming reader (content lines may start with '#')
+            recs, err = adapters.read_records(text.encode('utf-8'))
+            want = ['#%s:' % r['section'] for r in recs]
+            got = [v for p, tt, v in toks if tt is Name.Tag and v.startswith('#')]
+            if err is not None:
+                bad.append('the writer-produced file does not read back: %s' % err)
+            elif got != want:
+                bad.append('header tokens %r differ from the section headers %r' % (got[:12], want[:12]))
         return [{'what': b, 'text': common.enc_text(text), 'kind': kind} for b in bad]
 
     def key(self, case, impl_res):
